@@ -31,6 +31,7 @@ __CPROVER_ensures(/* cursor stays inside the NUL-terminated string and never mov
 CW_CONTRACT = CURSOR_REQ + r'''
 __CPROVER_ensures(/* consumeWhitespace stops at the first non-whitespace unit */ !XV_IS_WS(**theString))
 __CPROVER_ensures(/* consumeWhitespace makes progress on whitespace */ XV_IS_WS(*__CPROVER_old(*theString)) ==> SOFF(*theString) > SOFF(__CPROVER_old(*theString)))
+__CPROVER_ensures(/* consumeWhitespace skips XML whitespace only (space, tab, CR, LF; ghost witness): other control characters are not white space of the Number grammar */ (g_cw >= SOFF(__CPROVER_old(*theString)) && g_cw < SOFF(*theString)) ==> XV_IS_WS(g_str[g_cw]))
 '''
 CN_CONTRACT = CURSOR_REQ + r'''
 __CPROVER_ensures(/* consumeNumbers stops at the first non-digit unit */ !IS_DIGIT(**theString))
@@ -41,6 +42,12 @@ CN_LOOP = r'''
 __CPROVER_assigns(*theString)
 __CPROVER_loop_invariant(IN_STR(*theString) && SOFF(*theString) >= SOFF(__CPROVER_loop_entry(*theString)))
 __CPROVER_loop_invariant(/* everything skipped so far is an ASCII digit */ (g_cw >= SOFF(__CPROVER_loop_entry(*theString)) && g_cw < SOFF(*theString)) ==> IS_DIGIT(g_str[g_cw]))
+__CPROVER_decreases(g_n - SOFF(*theString))
+'''
+CW_LOOP = r'''
+__CPROVER_assigns(*theString)
+__CPROVER_loop_invariant(IN_STR(*theString) && SOFF(*theString) >= SOFF(__CPROVER_loop_entry(*theString)))
+__CPROVER_loop_invariant(/* everything skipped so far is XML whitespace */ (g_cw >= SOFF(__CPROVER_loop_entry(*theString)) && g_cw < SOFF(*theString)) ==> XV_IS_WS(g_str[g_cw]))
 __CPROVER_decreases(g_n - SOFF(*theString))
 '''
 CURSOR_LOOP = r'''
@@ -75,7 +82,7 @@ __CPROVER_ensures((__CPROVER_return_value == true || __CPROVER_return_value == f
 @@FN consumeNumbers@@
 @@FN doValidate@@
 
-void h_consumeWhitespace(void) { const XalanDOMChar** p; size_t n; g_n = n; const XalanDOMChar* s; g_str = s; consumeWhitespace(p); }
+void h_consumeWhitespace(void) { const XalanDOMChar** p; size_t n, w; g_cw = w; g_n = n; const XalanDOMChar* s; g_str = s; consumeWhitespace(p); }
 void h_consumeNumbers(void) { const XalanDOMChar** p; size_t n, w; g_cw = w; g_n = n; const XalanDOMChar* s; g_str = s; consumeNumbers(p); }
 void h_doValidate(void) { const XalanDOMChar* s; bool* f; size_t n; g_n = n; const XalanDOMChar* gs; g_str = gs; doValidate(s, f); }
 
@@ -125,7 +132,7 @@ UNIT = Unit(
         Fn(DS, r'^consumeWhitespace\(const XalanDOMChar\*&\s+theString\)', 'consumeWhitespace',
            'static void consumeWhitespace(const XalanDOMChar** theString)',
            head_expect=r'^inline void consumeWhitespace\(const XalanDOMChar\*& theString\)$',
-           rules=REF, contract=CW_CONTRACT, loops={0: CURSOR_LOOP}, nloops=1),
+           rules=['SCOPE'] + REF, contract=CW_CONTRACT, loops={0: CW_LOOP}, nloops=1),
         Fn(DS, r'^consumeNumbers\(', 'consumeNumbers',
            'static void consumeNumbers(const XalanDOMChar** theString)',
            head_expect=r'^inline static void consumeNumbers\(const XalanDOMChar\*& theString\)$',
